@@ -124,6 +124,57 @@ impl<const N: usize> Buf for CutBuf<N> {
     }
 }
 
+/// One symbolic cut like `CutBuf`, but PHYSICALLY fragmented: the two chunks live in two separate arrays and each is flush with
+/// the END of its array.  In `CutBuf` / `SymBuf` / `StepBuf` the byte behind a chunk is the next logical byte, so code that reads
+/// past the end of `chunk()` (e.g. a fast path guarded by `remaining()` instead of `chunk().len()`) still sees the right value and
+/// stays inside the object; here it leaves the object and CBMC's pointer check fails.
+#[derive(Clone, Copy)]
+pub struct FragBuf<const N: usize> {
+    a: [u8; N],
+    b: [u8; N],
+    cut: usize,
+    len: usize,
+    pub pos: usize,
+}
+impl<const N: usize> FragBuf<N> {
+    /// logical sequence data[..len], first `cut` bytes in the first array (cut >= len: everything in the first array)
+    pub fn new(data: &[u8; N], len: usize, cut: usize) -> Self {
+        let cut = if cut < len { cut } else { len };
+        let mut a = [0xEEu8; N];
+        let mut b = [0xEEu8; N];
+        let mut i = 0;
+        while i < N {
+            if i < cut {
+                a[N - cut + i] = data[i];
+            } else if i < len {
+                b[N - (len - cut) + (i - cut)] = data[i];
+            }
+            i += 1;
+        }
+        FragBuf { a, b, cut, len, pos: 0 }
+    }
+    /// the two physical pieces (for building a `Chain` of separate objects)
+    pub fn parts(&self) -> (&[u8], &[u8]) {
+        (&self.a[N - self.cut..], &self.b[N - (self.len - self.cut)..])
+    }
+}
+impl<const N: usize> Buf for FragBuf<N> {
+    fn remaining(&self) -> usize {
+        self.len - self.pos
+    }
+    fn chunk(&self) -> &[u8] {
+        if self.pos < self.cut {
+            &self.a[N - self.cut + self.pos..]
+        } else {
+            &self.b[N - (self.len - self.cut) + (self.pos - self.cut)..]
+        }
+    }
+    fn advance(&mut self, cnt: usize) {
+        assert!(cnt <= self.len - self.pos, "FragBuf::advance past the end");
+        self.pos += cnt;
+    }
+}
+
 /// Fixed chunk size K (K = 1: every byte is its own chunk, the maximal number of boundaries).
 #[derive(Clone, Copy)]
 pub struct StepBuf<const N: usize, const K: usize> {
